@@ -157,6 +157,11 @@ func (d *Decimal) setString(c *Context, s string) (Condition, error) {
 		exps = append(exps, -exp)
 		s = s[:i] + s[i+1:]
 	}
+	// The sign was consumed above. BigInt.SetString accepts a sign of its own,
+	// which must not appear anywhere in the digits (e.g. ".-5").
+	if strings.ContainsAny(s, "+-") {
+		return 0, fmt.Errorf("parse mantissa: %s", s)
+	}
 	if _, ok := d.Coeff.SetString(s, 10); !ok {
 		return 0, fmt.Errorf("parse mantissa: %s", s)
 	}
